@@ -93,7 +93,9 @@ def check_problem(pr, method, rep=None, want=None):
 def explore(item, tier, seed):
     i, n = item
     rep = Report()
-    for idx, labs, pr, method in F.family(tier):
+    import itertools as _it
+
+    for idx, labs, pr, method in _it.chain(F.family(tier), F.view_family()):
         if idx % n != i:
             continue
         fs = check_problem(pr, method, rep)
